@@ -85,6 +85,11 @@ OWN = [
     ("strict-many-missing", {"m": "${alpha}${bravo}${charlie}${delta}${echo}${foxtrot}${golf}${hotel}<%def name='q()'>${india}${juliet}${kilo}${lima}</%def>${q()}"}, {}, None, {"strict_undefined": True}),
     ("many-names-no-def", {"m": "${alpha}${bravo}${charlie}${delta}${echo}${foxtrot}${golf}${hotel}\n% if india:\n${juliet}${kilo}\n% endif\n<%block name='b'>${lima}${mike}${november}${oscar}</%block>"}, dict(alpha="a", bravo="b", charlie="c", delta="d", echo="e", foxtrot="f", golf="g", hotel="h", india="i", juliet="j", kilo="k", lima="l", mike="m", november="n", oscar="o"), None),
     ("loop-as-variable", {"m": "body ${x} ${loop}<%def name='d()'>[d ${x} ${loop}]</%def>${d()}\n% for i in x:\n${i}\n% endfor\n"}, {"x": "X", "loop": "L"}, None, {"enable_loop": False}),
+    # two importing <%namespace> tags that provide the same name: which one wins must not depend on the path or on PYTHONHASHSEED
+    ("ns-import-clash", {"na.html": "<%def name='greet()'>from-A</%def><%def name='onlya()'>a</%def>", "nb.html": "<%def name='greet()'>from-B</%def><%def name='onlyb()'>b</%def>",
+                         "m": "<%namespace file='na.html' import='*'/><%namespace file='nb.html' import='greet, onlyb'/>${greet()}|${onlya()}|${onlyb()}<%def name='d()'>${greet()}</%def>|${d()}"}, {}, None),
+    ("ns-import-clash-3", {"na.html": "<%def name='greet()'>from-A</%def>", "nb.html": "<%def name='greet()'>from-B</%def>", "nc.html": "<%def name='greet()'>from-C</%def>",
+                           "m": "<%namespace file='nc.html' import='greet'/><%namespace file='na.html' import='*'/><%namespace file='nb.html' import='*'/>${greet()}"}, {}, None),
     ("cached", {"m": "<%def name='f()' cached='True' cache_impl='c17rec'>c${x}</%def>${f()}${f()}"}, {"x": "1"}, None),
 ]
 
